@@ -88,6 +88,12 @@ Lemma do_filter_strictish m1 m2 : u_strictish m1 = u_strictish m2 -> do_filter m
 Proof. destruct m1, m2; cbn; intros H; try discriminate H; reflexivity. Qed.
 
 (* ... and a strict-ish mode only turns results into errors *)
+Lemma str_input_strict_lenient v : le (str_input Strict v) (str_input Lenient v).
+Proof. destruct v; cbn; try apply le_refl; apply le_err. Qed.
+
+Lemma str_input_mono m1 m2 v : weaker m1 m2 = true -> le (str_input m1 v) (str_input m2 v).
+Proof. intros W r. destruct m1, m2; try discriminate W; destruct v; cbn; congruence. Qed.
+
 Lemma do_filter_strict_lenient esc f v args : le (do_filter Strict esc f v args) (do_filter Lenient esc f v args).
 Proof.
   unfold do_filter, u_not_undef. cbn [u_strictish andb].
@@ -95,7 +101,15 @@ Proof.
     match c with
     | context [Z.eqb] => destruct c
     end end;
-  try apply le_refl; destruct v; cbn; try apply le_refl; try apply le_err.
+  try apply le_refl;
+  first
+  [ (* replace: three string inputs *)
+    solve [ apply le_bind; [apply str_input_strict_lenient|]; intros vi;
+            destruct args as [|a1 rest]; [apply le_refl|];
+            apply le_bind; [apply str_input_strict_lenient|]; intros fi;
+            destruct rest as [|a2 rest2]; [apply le_refl|];
+            apply le_bind; [apply str_input_strict_lenient|]; intros ti; apply le_refl ]
+  | destruct v; cbn; try apply le_refl; try apply le_err ].
 Qed.
 
 Lemma do_filter_mono m1 m2 esc f v args :
